@@ -862,21 +862,24 @@ fn main() {
         for i in 0..(48 * scale) {
             let proxy_on = i % 4 == 3;
             let proxy = if proxy_on { Some((true, true)) } else { None };
-            let timeout_s = *r.pick(&[5u64, 8]);
+            // one case in twelve: a connection timeout above the 10 s default and a session whose routing needs
+            // more than 10 s after the stop request (the drain must wait for the CONFIGURED timeout)
+            let long = i % 12 == 5;
+            let timeout_s = if long { 14 } else { *r.pick(&[5u64, 8]) };
             let cfg = Cfg { max: 10_000, expiry: 21_600, secret: None, timeout_s, lim: None, proxy };
             let k = 1 + r.below(4) as usize;
             let mut conns = vec![];
             let mut t = 50 + r.below(30);
             for j in 0..k {
                 let id = j as i64 + 1;
-                let (beh, lat) = match r.below(6) {
+                let (beh, lat) = if long && j == 0 { (Beh::Login { pace: 0 }, 13_000) } else { match r.below(6) {
                     0 => (Beh::Login { pace: 150 + r.below(4) * 100 }, 0),
                     1 => (Beh::Login { pace: 0 }, 1000 + r.below(3) * 700),
                     2 => (Beh::Status, 0),
                     3 => (Beh::StopAt(1 + r.below(4) as u32), 0),
                     4 => (Beh::Silent, 0),
                     _ => (Beh::Login { pace: 40 }, 300),
-                };
+                } };
                 let mut c = plain(id, 2 + (j % 3) as u8, t, beh.clone(), nat_of(&beh, lat));
                 c.lat = lat;
                 if proxy_on {
